@@ -57,7 +57,12 @@ def geometry(path):
         closed = isinstance(segs[b], svg.Close)
         fp = segs[a].end if isinstance(segs[a], svg.Move) else segs[a].start
         edges = [g for g in segs[a:b + 1] if not isinstance(g, (svg.Move, svg.Close))]
-        if closed and segs[b].start != segs[b].end:
+        if closed and segs[b].start is not None and segs[b].end is not None:
+            # a closing line counts as an edge when it has a length (rounding noise of a few ulp after a transform does not)
+            cs, ce = segs[b].start, segs[b].end
+            if max(abs(cs.x - ce.x), abs(cs.y - ce.y)) > 1e-10 * max(1.0, abs(cs.x), abs(cs.y), abs(ce.x), abs(ce.y)):
+                edges.append(svg.Line(segs[b].start, segs[b].end))
+        elif closed and segs[b].start != segs[b].end:
             edges.append(svg.Line(segs[b].start, segs[b].end))
         geo.append((closed, fp, edges))
     return geo
